@@ -1114,6 +1114,9 @@ int get_precedence_or_default(const expression_t& expr)
 
 std::ostream& expression_t::print(std::ostream& os, bool old) const
 {
+    if (empty())  // e.g. the "default" entry of a channel priority declaration, an absent label
+        return os;
+
     const int precedence = get_precedence_or_default(*this);
 
     bool flag = false;
